@@ -244,5 +244,62 @@ def run(repo='/repo', tier='quick'):
                 res.violated('C06.d', fname + ':marker-only-with-body', 'the end-of-body marker is sent on a path that did not establish that the message has a body', end[3]['loc'])
         res.check(not bad, 'C06.d', fname + ':marker-before-complete', 'on all %d paths to %s either the message has no body or %s(tx, NULL, 0) came first' % (n, hook, proc),
                   '%s can run for a message with a body before the end-of-body marker was delivered' % hook, f.loc)
+    c06f(db, res)
     res.assumptions.append('"concatenation equals the entity body" and chunk-size parsing are values and are not decided')
     return res
+
+
+def c06f(db, res):
+    """message length = body bytes taken from the wire, framing included.  In the body states every direct advance of the
+    consume cursor (bytes that will not be seen again) by A is paired, within the same loop iteration, with *_message_len
+    advancing by A (or, response side, with the hand-over call that accounts centrally, C06.c)."""
+    res.rule('C06.f', 'in every body state, each direct advance of the consume cursor by A is paired with *_message_len advancing by A before the function is left or the cursor advances again (per byte in the line-ending loops, per block in the bulk states)')
+    nadv = 0
+    for d, side, proc in (('in', 'request', 'htp_tx_req_process_body_data_ex'), ('out', 'response', 'htp_tx_res_process_body_data_ex')):
+        cur, acc = d + '_current_consume_offset', side + '_message_len'
+        for name in sorted(P.state_functions(db, d)):
+            f = db.get(name)
+            if not (P.field_writes(f, acc) or any(not is_lit(c['args'][2], 0) for b, i, c in f.calls(proc))):
+                continue                                   # not a body state
+
+            def amount(x):
+                return '1' if x['k'] == 'un' else (P.K(x['r']) if x.get('op') == '+=' else None)
+
+            def accounted(st):
+                out = [amount(w) for w in P.assigns_field(st, acc)]
+                if d == 'out':                              # the response side accounts inside the hand-over (C06.c central-accounting)
+                    out += [P.K(c['args'][2]) for c in nodes(st, lambda y: y.get('k') == 'call' and y.get('callee') == proc)]
+                return out
+            dom = C.dominators(f)
+            loops = C.loops(f)
+            for b, i, x in P.field_writes(f, cur):
+                A = amount(x)
+                if A is None:
+                    continue                               # plain assignment (rewind / resync): not an advance
+                nadv += 1
+                got, bad = [], []
+
+                def visit(bb, ii, st):
+                    a = accounted(st)
+                    if a:
+                        got.extend(a)
+                        return True
+                    if (bb, ii) == (b, i) or any(w is not x and amount(w) is not None for w in P.assigns_field(st, cur)):
+                        bad.append(st)
+                        return True
+                    return False
+                ends, ex = C.forward(f, (b, i), visit)
+                fwd = not bad and not ex
+                # or: the accounting precedes the advance in the same iteration
+                inner = [body for h, body in loops if b in body]
+                before = [a for bb, ii, st in f.stmts() for a in accounted(st)
+                          if ((bb == b and ii < i) or (bb != b and bb in dom[b])) and all(bb in body for body in inner)]
+                key = '%s:%s+=%s' % (name, cur, A)
+                if (fwd and got and all(a == A for a in got)) or A in before:
+                    res.holds('C06.f', key, '%s advances by %s %s' % (acc, A, 'before the function is left or the cursor moves again' if fwd else 'earlier in the same iteration'), x['loc'])
+                elif fwd and got:
+                    res.unknown('C06.f', key, 'every path accounts, but by %s rather than %s: accounting idiom not recognised' % (sorted(set(got)), A), x['loc'])
+                else:
+                    res.violated('C06.f', key, '%s consumes %s byte(s) of the %s body from the wire and can leave the function (or consume again) without adding them to %s: message length and wire bytes disagree for some chunkings'
+                                 % (name, A, side, acc), x['loc'])
+    res.floor('C06.f', 'direct advances of the consume cursor in body states', nadv, 6)
